@@ -74,7 +74,9 @@ def main(argv=None):
         selfval = None
         if args.tier == 'thorough':
             from . import selfval as sv
-            selfval = sv.run(args.repo, args.prop, [r for r, _ in spec['rules']])
+            kf, _ = load_known()
+            selfval = sv.run(args.repo, args.prop, [r for r, _ in spec['rules']],
+                             known={(k['rule'], k['function'], k['statement']) for k in kf})
     except Exception as e:  # noqa
         from .program import AnalysisError
         if isinstance(e, AnalysisError):
